@@ -19,7 +19,7 @@ Definition fill_ok (s : state) (g : gauge) : Prop :=
 
 Record Inv (s : state) : Prop := mkInv {
   I_gauges : Forall gauge_ok (s_gauges s);
-  I_durs : Forall (fun g => cache_min_duration_ms < g_dur g) (s_gauges s);
+  I_durs : Forall dur_ok (s_gauges s);
   I_locks : locks_pos (s_locks s);
   I_up : refs_sorted (s_up s);
   I_act : refs_sorted (s_act s);
@@ -271,7 +271,7 @@ Proof.
       pose proof (Aget _ Hi2) as G2. rewrite E in G2. rewrite (In_get _ _ Ind Hi) in G2. inversion G2; subst; auto. }
   (* the loop *)
   assert (Fok : Forall gauge_ok acts) by (apply Forall_forall; intros g Hi; rewrite Forall_forall in Ig; auto).
-  assert (Fd : Forall (fun g => cache_min_duration_ms < g_dur g) acts) by (apply Forall_forall; intros g Hi; rewrite Forall_forall in Id; apply Id; auto).
+  assert (Fd : Forall dur_ok acts) by (apply Forall_forall; intros g Hi; rewrite Forall_forall in Id; apply Id; auto).
   assert (Lc0 : lc_ok (s_locks s) []) by (intros d v Hv; discriminate).
   destruct (distribute_loop_spec _ _ _ _ _ _ _ _ _ _ DL Il Lc0 Fok Fd Nd Aget Ig) as (L1 & L2 & L3 & L4 & L5).
   exists ups, acts.
@@ -327,6 +327,7 @@ Lemma epoch_gauge_evolution : forall cfg thr s s', Inv s -> after_epoch_end cfg 
   forall g', In g' (s_gauges s') ->
   exists g, In g (s_gauges s) /\ g_id g' = g_id g /\ g_coins g' = g_coins g /\ g_perp g' = g_perp g /\
             g_n g' = g_n g /\ g_start g' = g_start g /\ g_denom g' = g_denom g /\ g_dur g' = g_dur g /\
+            g_pool g' = g_pool g /\
             (g' = g \/ (takes_part s g /\ g_filled g' = g_filled g + 1)).
 Proof.
   intros cfg thr s s' I H g' Hi.
@@ -340,7 +341,8 @@ Proof.
     assert (Tp : takes_part s g) by (apply Hacts; auto). pose proof (proj1 Tp) as Hs.
     pose proof (distribute_internal_ok _ _ _ _ _ _ _ _ _ (proj1 (Forall_forall _ _) (I_gauges _ I) g Hs) (elig_pos _ g (I_locks _ I)) D) as OK.
     exists g. destruct w as [g'|].
-    + destruct OK as (_ & E1 & E2 & E3 & E4 & E5 & E6 & E7 & E8). repeat split; auto.
+    + destruct OK as (_ & E1 & E2 & E3 & E4 & E5 & E6 & E7 & E8). destruct (distribute_internal_post _ _ _ _ _ _ _ _ _ D) as (t & Et).
+      repeat split; auto. rewrite Et. reflexivity.
     + repeat split; auto.
   - rewrite (Hother _ Hnin) in G'. destruct (get_gauge_some _ _ _ G') as [_ Hs].
     exists g'. repeat split; auto.
@@ -362,15 +364,15 @@ Proof.
   pose proof I as [Ig Id Il Iu Ia If Ip Iids Ind Ilast Iacct Ifill].
   assert (Rng : forall id, in_range s' id = in_range s id) by (intros; unfold in_range; rewrite Elg; reflexivity).
   constructor; auto.
-  - apply Forall_forall. intros g' Hi. destruct (Ev g' Hi) as (g & Hs & _ & _ & _ & _ & _ & _ & Ed & _).
-    rewrite Ed. rewrite Forall_forall in Id. auto.
+  - apply Forall_forall. intros g' Hi. destruct (Ev g' Hi) as (g & Hs & _ & _ & _ & _ & _ & _ & Ed & Epl & _).
+    unfold dur_ok. rewrite Ed, Epl. rewrite Forall_forall in Id. apply (Id g Hs).
   - rewrite El; auto.
   - intros id. destruct (Cn id) as (E1 & E2 & E3). rewrite Rng, <- Ip. lia.
   - intros id. rewrite Rng, <- Iids, !get_notnone_in, Hids. tauto.
   - rewrite Hids; auto.
   - rewrite Elg; auto.
   - intros d. specialize (Acct d). specialize (Iacct d). lia.
-  - apply Forall_forall. intros g' Hi. destruct (Ev g' Hi) as (g & Hs & Eid & _ & Ep & En' & _ & _ & _ & Hev).
+  - apply Forall_forall. intros g' Hi. destruct (Ev g' Hi) as (g & Hs & Eid & _ & Ep & En' & _ & _ & _ & _ & Hev).
     rewrite Forall_forall in Ifill. destruct (Ifill g Hs) as (F0 & Fn & Fp & Fnp).
     destruct (Cn (g_id g)) as (C1 & C2 & C3).
     pose proof (moved_bounds (s_now s) ups (g_id g)) as Mb. pose proof (finm_bounds acts (g_id g)) as Fb.
@@ -486,7 +488,7 @@ Proof.
   destruct (add_ref (s_up s) start (s_last_gauge s + 1)) as [up|] eqn:A; [|discriminate].
   inversion H; subst s'; clear H.
   pose proof I as [Ig Id Il Iu Ia If Ip Iids Ind Ilast Iacct Ifill].
-  set (id := s_last_gauge s + 1) in *. set (g := mkGauge id perp denom dur c [] start n 0).
+  set (id := s_last_gauge s + 1) in *. set (g := mkGauge id perp denom dur c [] start n 0 0).
   destruct (add_ref_spec _ _ _ _ Iu A) as (Su & _ & Cu).
   assert (Or : in_range s id = false) by (unfold in_range, id; apply andb_false_iff; right; apply Z.leb_gt; lia).
   assert (Gn : get_gauge (s_gauges s) id = None).
@@ -496,7 +498,55 @@ Proof.
   { unfold gauge_ok, g; cbn. repeat split; auto; try constructor. intros d. apply amount_of_nonneg, pos_nonneg; auto. }
   constructor; cbn [s_gauges s_locks s_up s_act s_fin s_last_gauge s_bank]; auto.
   - apply set_gauge_Forall; auto.
-  - apply set_gauge_Forall; auto. unfold g; cbn. unfold cfg_ok in Hc. rewrite Forall_forall in Hc. auto.
+  - apply set_gauge_Forall; auto. unfold g, dur_ok; cbn. intros _. unfold cfg_ok in Hc. rewrite Forall_forall in Hc. auto.
+  - intros x. rewrite Cu. unfold in_range; cbn [s_last_gauge]. fold id. specialize (Ip x). unfold in_range in Ip.
+    destruct (id =? x) eqn:E.
+    + apply Z.eqb_eq in E; subst x. rewrite Z1, Z2, Z3. assert ((1 <=? id) = true) by (apply Z.leb_le; unfold id; lia).
+      rewrite H, Z.leb_refl. reflexivity.
+    + apply Z.eqb_neq in E. rewrite Z.add_0_r, Ip. destruct (1 <=? x); cbn [andb]; auto.
+      destruct (x <=? s_last_gauge s) eqn:L1; destruct (x <=? id) eqn:L2; auto; unfold id in *; lia.
+  - intros x. rewrite get_set_gauge. cbn [g_id g]. unfold in_range; cbn [s_last_gauge]. fold id.
+    specialize (Iids x). unfold in_range in Iids. destruct (id =? x) eqn:E.
+    + apply Z.eqb_eq in E; subst x. split; [intros _|discriminate]. apply andb_true_iff. split; apply Z.leb_le; unfold id; lia.
+    + apply Z.eqb_neq in E. rewrite Iids. rewrite !andb_true_iff, !Z.leb_le. unfold id in *. lia.
+  - rewrite set_gauge_fresh_ids by exact Gn. apply NoDup_app_end; auto. cbn [g_id g]. apply get_none_notin; auto.
+  - lia.
+  - intros d. rewrite (bank_send_module _ _ _ _ Ho B d), set_gauge_sum. cbn [g_id g]. rewrite Gn, Iacct. unfold rem, g; cbn. lia.
+  - apply set_gauge_Forall.
+    + apply Forall_forall. intros g0 Hi. rewrite Forall_forall in Ifill. specialize (Ifill g0 Hi).
+      unfold fill_ok in *. cbn [s_up s_act s_fin]. rewrite Cu.
+      assert (id =? g_id g0 = false).
+      { apply Z.eqb_neq. intros E. pose proof (in_store_range _ _ I Hi). rewrite <- E in H. congruence. }
+      rewrite H, Z.add_0_r. exact Ifill.
+    + unfold fill_ok; cbn [s_up s_act s_fin]. change (g_id g) with id. change (g_filled g) with 0.
+      change (g_n g) with n. change (g_perp g) with perp. rewrite Cu, Z1, Z2, Z3, Z.eqb_refl. repeat split; try lia.
+      apply andb_false_iff in Z0. destruct Z0 as [Z0|Z0]; [apply Z.eqb_neq in Z0; lia|]. rewrite H in Z0. discriminate.
+Qed.
+
+Lemma create_nolock_gauge_inv : forall cfg s owner perp pool c start n s',
+  Inv s -> owner <> MODULE -> pos_coins c -> sorted_coins c -> 0 <= n < two64 ->
+  create_nolock_gauge cfg s owner perp pool c start n = Ok s' -> Inv s'.
+Proof.
+  intros cfg s owner perp pool c start n s' I Ho Pc Sc Hn H. unfold create_nolock_gauge in H.
+  destruct ((n =? 0) && negb perp) eqn:Z0; [discriminate|].
+  destruct (negb (distributable cfg s c)); [discriminate|].
+  destruct (pool <=? 0) eqn:Pp; [discriminate|]. apply Z.leb_gt in Pp.
+  destruct (negb (mem pool (cfg_clpools cfg))); [discriminate|].
+  destruct (bank_send (s_bank s) owner MODULE c) as [b|] eqn:B; [|discriminate].
+  destruct (add_ref (s_up s) start (s_last_gauge s + 1)) as [up|] eqn:A; [|discriminate].
+  inversion H; subst s'; clear H.
+  pose proof I as [Ig Id Il Iu Ia If Ip Iids Ind Ilast Iacct Ifill].
+  set (id := s_last_gauge s + 1) in *. set (g := mkGauge id perp (- pool) 0 c [] start n 0 pool).
+  destruct (add_ref_spec _ _ _ _ Iu A) as (Su & _ & Cu).
+  assert (Or : in_range s id = false) by (unfold in_range, id; apply andb_false_iff; right; apply Z.leb_gt; lia).
+  assert (Gn : get_gauge (s_gauges s) id = None).
+  { destruct (get_gauge (s_gauges s) id) eqn:G; auto. assert (in_range s id = true) by (apply Iids; congruence). congruence. }
+  destruct (out_of_range_zero _ _ I Or) as (Z1 & Z2 & Z3).
+  assert (Gok : gauge_ok g).
+  { unfold gauge_ok, g; cbn. repeat split; auto; try constructor. intros d. apply amount_of_nonneg, pos_nonneg; auto. }
+  constructor; cbn [s_gauges s_locks s_up s_act s_fin s_last_gauge s_bank]; auto.
+  - apply set_gauge_Forall; auto.
+  - apply set_gauge_Forall; auto. unfold g, dur_ok; cbn. intros E0. lia.
   - intros x. rewrite Cu. unfold in_range; cbn [s_last_gauge]. fold id. specialize (Ip x). unfold in_range in Ip.
     destruct (id =? x) eqn:E.
     + apply Z.eqb_eq in E; subst x. rewrite Z1, Z2, Z3. assert ((1 <=? id) = true) by (apply Z.leb_le; unfold id; lia).
@@ -532,7 +582,7 @@ Proof.
   inversion H; subst s'; clear H.
   pose proof I as [Ig Id Il Iu Ia If Ip Iids Ind Ilast Iacct Ifill].
   destruct (get_gauge_some _ _ _ G) as [Eid Hi].
-  set (g' := mkGauge (g_id g) (g_perp g) (g_denom g) (g_dur g) (coins_add (g_coins g) c) (g_dist g) (g_start g) (g_n g) (g_filled g)).
+  set (g' := mkGauge (g_id g) (g_perp g) (g_denom g) (g_dur g) (coins_add (g_coins g) c) (g_dist g) (g_start g) (g_n g) (g_filled g) (g_pool g)).
   rewrite Forall_forall in Ig, Id, Ifill.
   assert (Gn : get_gauge (s_gauges s) (g_id g') <> None) by (cbn [g_id g']; rewrite Eid, G; discriminate).
   constructor; cbn [s_gauges s_locks s_up s_act s_fin s_last_gauge s_bank]; auto.
@@ -541,7 +591,7 @@ Proof.
     + apply pos_coins_add; auto. apply pos_nonneg; auto.
     + intros d. rewrite amount_of_coins_add. specialize (P3 d). pose proof (amount_of_nonneg c d (pos_nonneg _ Pc)). lia.
     + apply coins_add_sorted; auto.
-  - apply set_gauge_Forall; [apply Forall_forall; auto|]. unfold g'; cbn. auto.
+  - apply set_gauge_Forall; [apply Forall_forall; auto|]. unfold g', dur_ok; cbn. apply (Id g Hi).
   - intros x. rewrite get_set_gauge. cbn [g_id g']. unfold in_range in *; cbn [s_last_gauge]. destruct (g_id g =? x) eqn:E; [|apply Iids].
     apply Z.eqb_eq in E. subst x. rewrite <- Iids. rewrite Eid, G. split; discriminate.
   - rewrite set_gauge_ids; auto.
@@ -591,6 +641,10 @@ Proof.
   - inversion H; subst. apply advance_inv; auto.
   - destruct (after_epoch_end cfg (thr_fun thr) (advance s dt)) eqn:E; [|discriminate]. inversion H; subst.
     eapply epoch_inv; [apply advance_inv; eauto|eauto].
+  - destruct (negb (valid_raw raw) || (n <? 0) || (two64 <=? n) || (u <? 0)) eqn:V; [discriminate|].
+    repeat (apply orb_false_iff in V; destruct V as [V ?]). apply negb_false_iff in V.
+    destruct (create_nolock_gauge cfg s u perp pool (mk_coins raw) start n) eqn:C; [|discriminate]. inversion H; subst.
+    eapply create_nolock_gauge_inv; eauto; [unfold MODULE; lia|apply mk_coins_pos; auto|apply mk_coins_sorted|lia].
 Qed.
 
 Lemma step_inv : forall cfg s o, cfg_ok cfg -> Inv s -> Inv (fst (fst (step cfg s o))).
